@@ -104,11 +104,20 @@ class WriterRun(object):
     self.now = 100.0
     self.ts0 = 100
     self.pending_cnt = False
+    self.alias = dict(cfg.get('alias') or {})
+    self.unalias = {v: k for k, v in self.alias.items()}
 
   def mid(self, name):
     if name is None:
       return 0
-    return int(name[1:])
+    name = self.unalias.get(name, name)
+    if name[:1] == 'm' and name[1:].isdigit():
+      return int(name[1:])
+    return 99            # a name nobody stored under (e.g. a "cleaned-up" spelling of a stored name)
+
+  def real(self, m):
+    """cfg['alias']: workload metric mK is really called alias['mK'] (names with empty path components, look-alikes)"""
+    return self.alias.get(m, m)
 
   # with cfg['frac'] the stored timestamps are ts0 + 0.25, ts0 + 0.5, ... (several per whole second); they are
   # logged in quarter seconds so that they stay distinct integers
@@ -150,11 +159,15 @@ class WriterRun(object):
     wm.settings['CACHE_SIZE_LOW_WATERMARK'] = float('inf')
     wm.settings['MIN_TIMESTAMP_LAG'] = self.cfg.get('lag', 0)
     wm.settings['USE_FLOW_CONTROL'] = False
+    # a receiver-side setting: the writer hands on what was cached, whatever the listeners would have rounded
+    wm.settings['MIN_TIMESTAMP_RESOLUTION'] = self.cfg.get('res', 0)
+    wm.settings['LOG_UPDATES'] = bool(self.cfg.get('log_updates', False))
+    wm.settings['LOG_CREATES'] = bool(self.cfg.get('log_creates', False))
     wm.cache._Cache = None
     cache = self.cache = wm.cache.MetricCache()
     wm.instrumentation.stats.clear()
     self.errlog = env.ErrorLog().install()
-    self.db = MemoryDB(self, self.preexisting, self.faults)
+    self.db = MemoryDB(self, [self.real(x) for x in self.preexisting], self.faults)
     wm.state.database = self.db
     wm.state.cacheTooFull = False
     # reset the token buckets the writer module built at import (fresh per run)
@@ -236,6 +249,7 @@ class WriterRun(object):
       if op[0] == 'store':
         _, m, ts, vid = op
         ts = self.ts0 + (0.25 * ts if self.cfg.get('frac') else ts)            # timestamps close to the (virtual) present
+        m = self.real(m)
         self.r_pending = (m, ts, vid)
         try:
           self.cache.store(m, (ts, cachesys.enc(vid)))
@@ -252,7 +266,7 @@ class WriterRun(object):
         import carbon.protocols as _protocols
         h = _protocols.CacheManagementHandler()
         h.makeConnection(_ST())
-        req = _pickle.dumps(dict(type='cache-query-bulk', metrics=list(op[1])), protocol=2)
+        req = _pickle.dumps(dict(type='cache-query-bulk', metrics=[self.real(x) for x in op[1]]), protocol=2)
         h.dataReceived(_struct.pack('!L', len(req)) + req)
       self.sched.point('op')
 
